@@ -125,7 +125,7 @@ class B:
     def pro_op(self):
         name = self.draw(st.sampled_from(sorted(self.lists)))
         t, n = self.lists[name]
-        op = self.draw(st.sampled_from(["append", "remove_present", "drain_refill", "loop_append", "copy_assign", "skewed_copy", "skewed_copy", "read", "read", "self_assign", "reassign", "alias", "helper_read", "helper_mutate", "empty_range"]))
+        op = self.draw(st.sampled_from(["append", "remove_present", "drain_refill", "loop_append", "copy_assign", "skewed_copy", "skewed_copy", "read", "read", "self_assign", "reassign", "alias", "helper_read", "helper_mutate", "empty_range", "swap_lists", "swap_lists"]))
         d = self.pro
         if op == "append":
             d.append(f"{name}.append({self.operand(t, d, (name, n))})"); self.lists[name][1] += 1
@@ -178,6 +178,28 @@ class B:
                 if src in self.big:
                     self.big.add(name)
                 self.reassigned = True
+        elif op == "swap_lists":
+            # tuple assignment between declared lists of one element type: swap and three-way rotation (every buffer changes owner exactly once)
+            others = sorted(o for o, (ot, on) in self.lists.items() if o != name and ot == t)
+            if others:
+                o1 = self.draw(st.sampled_from(others))
+                rest = [o for o in others if o != o1]
+                if rest and self.draw(st.booleans()):
+                    o2 = self.draw(st.sampled_from(rest))
+                    d.append(f"{name}, {o1}, {o2} = {o1}, {o2}, {name}")
+                    ln = [self.lists[x][1] for x in (name, o1, o2)]
+                    self.lists[name][1], self.lists[o1][1], self.lists[o2][1] = ln[1], ln[2], ln[0]
+                    grp = (name, o1, o2)
+                else:
+                    d.append(f"{name}, {o1} = {o1}, {name}")
+                    self.lists[name][1], self.lists[o1][1] = self.lists[o1][1], self.lists[name][1]
+                    grp = (name, o1)
+                if any(g in self.big for g in grp):
+                    self.big.update(grp)
+                for g in grp:
+                    d.append(f"mon.write(len({g}))")
+                self.reassigned = True
+                t, n = self.lists[name]
         elif op == "self_assign":
             d.append(f"{name} = {name}")
         elif op == "reassign" and t in ("int", "float") and n >= 1:
@@ -217,7 +239,7 @@ class B:
             return
         name = self.draw(st.sampled_from(sorted(cands)))
         t, n = self.lists[name]
-        op = self.draw(st.sampled_from(["append_remove", "append_remove", "rotate", "drain_refill", "read", "grow", "loop_alloc", "reassign_in_loop", "str_build", "str_const"]))
+        op = self.draw(st.sampled_from(["append_remove", "append_remove", "rotate", "drain_refill", "read", "grow", "loop_alloc", "reassign_in_loop", "str_build", "str_const", "swap_lists"]))
         d = self.loop
         if op == "append_remove" and t in ("int", "str"):
             if t == "int":
@@ -241,6 +263,15 @@ class B:
                 vals = [v] * n
             d += [f"{name}.remove({name}[0])"] * n + [f"mon.write(len({name}))"] + [f"{name}.append({x})" for x in vals]
             self.mut_in_loop = True
+        elif op == "swap_lists":
+            # swapped every pass: equal lengths, so every literal index stays valid and the live data is constant
+            others = sorted(o for o, (ot, on) in self.lists.items() if o != name and ot == t and on == n)
+            if others:
+                o1 = self.draw(st.sampled_from(others))
+                d += [f"{name}, {o1} = {o1}, {name}", f"mon.write({o1}[0])"]
+                if name in self.big or o1 in self.big:
+                    self.big.update((name, o1))
+                self.mut_in_loop = True
         elif op == "grow":
             d.append(f"{name}.append({self.operand(t, self.pro, (name, n))})")
             d.append(f"mon.write(len({name}))")
